@@ -155,9 +155,10 @@ pub mod faketoken {
             assert!(amount >= 0, "negative amount");
             let fb: i128 = env.storage().persistent().get(&FKey::Bal(from.clone())).unwrap_or(0);
             assert!(fb >= amount, "insufficient balance");
-            env.storage().persistent().set(&FKey::Bal(from), &(fb - amount));
+            env.storage().persistent().set(&FKey::Bal(from.clone()), &(fb - amount));
             let tb: i128 = env.storage().persistent().get(&FKey::Bal(to.clone())).unwrap_or(0);
-            env.storage().persistent().set(&FKey::Bal(to), &(tb + amount));
+            env.storage().persistent().set(&FKey::Bal(to.clone()), &(tb + amount));
+            env.events().publish((soroban_sdk::symbol_short!("transfer"), from, to), amount);
         }
     }
 }
